@@ -15,6 +15,7 @@ import signal
 import sys
 
 from enc import dec_sent, enc_arg, enc_node, enc_param, enc_pred, enc_sent
+from modelio import data_record, export
 from pytableaux.lang import Argument, Predicated
 from pytableaux.logics import registry
 from pytableaux.proof import Tableau
@@ -188,6 +189,8 @@ def enc_model(tab, br, bi, ids):
             for params, v in interp.items():
                 val.append([w, enc_sent(Predicated(pred, tuple(params))), v.name])
     R = [[w1, w2] for w1 in sorted(m.R) for w2 in sorted(m.R[w1])]
+    # the serial completion may add a world that has no frame of its own
+    allw = sorted(set(worlds) | {w for p in R for w in p})
     values = []
     for k, n in enumerate(br):
         s = n.get('sentence')
@@ -203,7 +206,9 @@ def enc_model(tab, br, bi, ids):
         icm = int(bool(m.is_countermodel_to(tab.argument)))
     except Exception as e:
         icm = -1
-    return {'branch': bi, 'W': worlds, 'R': R, 'C': [enc_param(c) for c in sorted(m.constants)],
+    data, same, derr = data_record(m)
+    return {'M': export(m), 'data': data, 'data_same': same, 'data_err': derr,
+            'branch': bi, 'W': allw, 'frame_worlds': worlds, 'R': R, 'C': [enc_param(c) for c in sorted(m.constants)],
             'val': val, 'values': values, 'is_countermodel': icm,
             'nodes': [enc_node(n) for n in br], 'quit': int(has_quit(br))}
 
